@@ -175,10 +175,10 @@ Proof.
       destruct (rg_byid _ H s' Hi) as (A & B & C & D).
       repeat split; auto.
       destruct (Nat.eq_dec (s_tid (subs st s')) t) as [E|E].
-      * rewrite E, upd_same. simpl. rewrite <- El. apply In_rem. rewrite E in C. auto.
+      * rewrite E, upd_same. cbn [t_subs trg_set_subs]. rewrite <- El. apply In_rem. rewrite E in C. auto.
       * rewrite upd_other by auto. auto.
     + intros t' s' Hi. destruct (Nat.eq_dec t' t) as [->|Hne].
-      * rewrite upd_same in Hi |- *. simpl in Hi |- *. rewrite <- El in Hi. apply In_rem in Hi. destruct Hi as [Hi Hn].
+      * rewrite upd_same in Hi |- *. cbn [t_subs t_key trg_set_subs] in Hi |- *. rewrite <- El in Hi. apply In_rem in Hi. destruct Hi as [Hi Hn].
         destruct (rg_tsubs _ H _ _ Hi) as (A & B & C).
         rewrite upd_other by auto. repeat split; auto. apply In_rem; auto.
       * rewrite upd_other in Hi |- * by auto.
@@ -187,7 +187,7 @@ Proof.
         rewrite upd_other by auto. repeat split; auto. apply In_rem; auto.
     + apply NoDup_rem, (rg_nd_byid _ H).
     + intros t'. destruct (Nat.eq_dec t' t) as [->|Hne].
-      * rewrite upd_same. simpl. rewrite <- El. apply NoDup_rem, (rg_nd_tsubs _ H).
+      * rewrite upd_same. cbn [t_subs trg_set_subs]. rewrite <- El. apply NoDup_rem, (rg_nd_tsubs _ H).
       * rewrite upd_other by auto. apply (rg_nd_tsubs _ H).
     + apply (rg_shut _ H).
 Qed.
@@ -205,4 +205,41 @@ Proof.
   - inversion H0; subst; auto.
   - destruct (remove_locked st a) as [st1 r1] eqn:E1. destruct (remove_many st1 l) as [st2 r2] eqn:E2.
     inversion H0; subst. eapply IHl; [|eauto]. eapply RG_remove_locked; eauto.
+Qed.
+
+Lemma filter_all : forall A (f : A -> bool) l, (forall x, f x = true) -> filter f l = l.
+Proof. induction l; simpl; intros; auto. rewrite H. f_equal; auto. Qed.
+Lemma filter_filter : forall A (f g : A -> bool) l, filter f (filter g l) = filter (fun x => g x && f x) l.
+Proof. induction l; simpl; auto. destruct (g a); simpl; [destruct (f a)|]; rewrite IHl; auto. Qed.
+
+(* ---- detachTriggerLocked, explicitly (pointwise: no functional extensionality) ---- *)
+Lemma detach_subs_spec : forall l st st' cl,
+  NoDup l -> (forall s, In s l -> In s (byid st) /\ s_removed (subs st s) = false) ->
+  detach_subs st l = (st', cl) ->
+  cl = l /\ reg st' = reg st /\ trigs st' = trigs st /\ same_frame st st' /\
+  (forall x, subs st' x = if mem x l then sub_set_removed (subs st x) else subs st x) /\
+  byid st' = filter (fun x => negb (mem x l)) (byid st) /\
+  log st' = rev (map GRemoved l) ++ log st.
+Proof.
+  induction l as [|a l]; simpl; intros st st' cl Hnd Hall H.
+  - inversion H; subst. split; [auto|]. split; [auto|]. split; [auto|]. split; [apply sf_refl|].
+    split; [auto|]. split; [rewrite filter_all; auto|auto].
+  - destruct (Hall a (or_introl eq_refl)) as [Ha Hr].
+    unfold cas_removed in H. rewrite Hr in H.
+    destruct (detach_subs _ l) as [st2 c2] eqn:E2. inversion H; subst; clear H.
+    inversion Hnd; subst.
+    apply IHl in E2; auto.
+    + destruct E2 as (-> & Hreg & Htr & Hsf & Hsub & Hby & Hlog). simpl in *.
+      split; [reflexivity|]. split; [auto|]. split; [auto|].
+      split; [destruct Hsf as (?&?&?&?&?); unfold same_frame; simpl in *; auto|].
+      split; [|split].
+      * intros x. rewrite Hsub. unfold upd. destruct (Nat.eqb_spec a x).
+        -- subst. rewrite (proj2 (mem_nIn x l) H1). rewrite Nat.eqb_refl. simpl. auto.
+        -- destruct (Nat.eqb_spec x a); [congruence|]. simpl. auto.
+      * rewrite Hby. unfold rem. rewrite filter_filter. apply filter_ext. intros x.
+        rewrite (Nat.eqb_sym a x). destruct (x =? a); simpl; auto.
+      * rewrite Hlog. simpl. rewrite <- app_assoc. reflexivity.
+    + intros s Hs. simpl. destruct (Hall s (or_intror Hs)) as [A B].
+      assert (s <> a) by (intro; subst; tauto).
+      split; [apply In_rem; auto| rewrite upd_other; auto].
 Qed.
